@@ -191,11 +191,47 @@ def parse_checks(acc, f, cs, part):
                                       {'part': part, 'aspect': 'parse', 'route': route, 'shape': 'scalar', 'form': fname})
 
 
+def interleaved_parse(acc, words, part):
+    """the same hex / binary digit strings parsed for different formats in one process, forward then backward: a parse result
+    must depend on the format it is parsed for, not on which format saw those digits first"""
+    fmts = [Fmt(s, nw, nf) for nw in words for s in (True, False) for nf in (0, nw // 2)]
+    for f in fmts + fmts[::-1]:
+        n = f.n_word
+        digs = (n + 3) // 4
+        # digit strings shared by every word length with the same number of hex digits
+        pats = sorted({(1 << (4 * digs)) - 1, 1 << (4 * digs - 1), (1 << (4 * digs - 1)) - 1, (1 << n) - 1, 1 << (n - 1), 0x5A5A5A5A5A5A5A5A5A & ((1 << (4 * digs)) - 1), 1})
+        for p_ in pats:
+            if p_ >> n:
+                continue                      # not an n-bit image
+            c = p_ - (1 << n) if (f.signed and p_ >> (n - 1)) else p_
+            hs, bs = '0x' + format(p_, '0%dX' % digs), '0b' + format(p_, '0%db' % n)
+            for st in (hs, bs):
+                for raw in (True, False):
+                    if not raw and (n > 53):
+                        continue
+                    case = {'part': part, 'fmt': list(f), 'string': st, 'raw': raw, 'code': c}
+                    acc.evaluations += 1
+                    acc.transitions += 1
+                    acc.nontrivial += 1
+                    try:
+                        x = Fxp(st, f.signed, n, f.n_frac, raw=raw)
+                        got = codes(x)
+                    except Exception as e:
+                        acc.violation('exception', case, '%s: parsing %r raw=%s raised %r' % (f.dtype, st, raw, e), {'part': part, 'aspect': 'parse_interleaved'})
+                        continue
+                    if got != [c]:
+                        acc.violation('parse', case, '%s: %r (code %d) parsed raw=%s gives %s (formats interleaved in one process)' % (f.dtype, st, c, raw, got),
+                                      {'part': part, 'aspect': 'parse_interleaved'})
+                    else:
+                        acc.outcome('round_trip')
+
+
 def bounds(tier, seed):
     return {'rendering_small': 'every code of every format n_word<=8, n_frac 0..n_word: bin (frac_dot, prefixes None/0b/b/True), hex (default, True), '
                                'base_repr 2/8/10/16; 1-d arrays of all codes, 2-d (incl. transposed view), scalars',
             'rendering_wide': 'boundary/walking-bit/seed codes for n_word in %s x n_frac {0,1,n/2,n-1,n}'
                               % ('9..70 step 1 (quick: a 20-word subset) + {100,127,128,129,200,255,256}'),
+            'parsing_interleaved': 'the same digit strings parsed for neighbouring word lengths and both signednesses in one process, forward then backward',
             'parsing': 'n_word>=2: rendered strings in forms 0b / b / plain / 0x / with binary point, by constructor, call, set_val, from_bin method, '
                        'from_bin function; value mode for n_word<=53, raw=True for every width; list-of-str, 2-d exactly as rendered by bin()/hex() '
                        '(list of str arrays), 2-d ndarray of str, nested lists; scalars', 'seed': seed}
@@ -214,6 +250,8 @@ def shards(tier, seed):
             out.append({'part': 'S', 'nw': nw, 'signed': s})
     for nw in wide_words(tier):
         out.append({'part': 'W', 'nw': nw, 'seed': seed})
+    out.append({'part': 'X', 'nw': 0, 'words': [2, 3, 4, 5, 6, 7, 8, 9, 10, 11, 12, 13, 15, 16, 17, 31, 32, 33]})
+    out.append({'part': 'X', 'nw': 0, 'words': [61, 62, 63, 64, 65, 66, 67, 68, 127, 128, 129]})
     return out
 
 
@@ -221,7 +259,9 @@ def run_shard(sh):
     reset_class_state()
     acc = Acc()
     nw = sh['nw']
-    if sh['part'] == 'S':
+    if sh['part'] == 'X':
+        interleaved_parse(acc, sh['words'], 'X')
+    elif sh['part'] == 'S':
         for nf in range(0, nw + 1):
             f = Fmt(sh['signed'], nw, nf)
             cs = list(range(f.lo, f.hi + 1))
@@ -243,6 +283,14 @@ def replay(case):
     reset_class_state()
     acc = Acc()
     f = Fmt(*case['fmt'])
+    if 'string' in case:
+        try:
+            x = Fxp(case['string'], f.signed, f.n_word, f.n_frac, raw=case['raw'])
+            if codes(x) != [case['code']]:
+                acc.violation('parse', case, 'parsed %s' % codes(x), {'part': 'X', 'aspect': 'parse_interleaved'})
+        except Exception as e:
+            acc.violation('exception', case, repr(e), {'part': 'X', 'aspect': 'parse_interleaved'})
+        return acc.violations
     if case.get('aspect') == 'render' or 'form' not in case:
         render_checks(acc, f, case['codes'], case['part'])
         return [v for v in acc.violations if v['kind'] in ('render', 'exception')]
